@@ -126,6 +126,7 @@ def dec_kv(text, fields):
     for f, t in fields:
         raw = got.get(f)
         if t in ('u32', 'i32'):
+            if raw is not None: raw = pct(raw)          # numbers are read from the percent-decoded text (`%37` is `7`)
             if raw is None or not re.fullmatch(rb'[+-]?[0-9]+' if t == 'i32' else rb'\+?[0-9]+', raw): return None
             z = int(raw)
             if not ((-2 ** 31 <= z < 2 ** 31) if t == 'i32' else (0 <= z < 2 ** 32)): return None
@@ -133,6 +134,7 @@ def dec_kv(text, fields):
         elif t == 'seq_u32_default':          # a comma-separated list; the empty value is the empty list, an absent field the default (empty)
             vals[f] = []
             for e in (raw.split(b',') if raw else []):
+                e = pct(e)
                 if not re.fullmatch(rb'\+?[0-9]+', e) or not (0 <= int(e) < 2 ** 32): return None
                 vals[f].append(int(e))
         else:
